@@ -152,6 +152,81 @@ static void fuzzy_scenario(int oi, int mode, int const *sets, int const *fdbs, i
     ++n_ctl;
 }
 
+/* membership-table scenario: every kind of set as the FIRST entry of a table, followed by two triangles.
+ * Parameters are steep and the inputs (0, 1, 3, 4) sit where every membership is an exact dyadic number
+ * (0 / inactive, 1/4, 1/2 or 1), so the scheduled gains have exact rational expectations computed from the
+ * memberships the public dispatcher a_mf reports for each table entry. */
+typedef struct { int kind; int np; a_real p[4]; } setdef;
+static setdef const kinds[] = {
+    {A_MF_GAUSS, 2, {0.0625, 0}}, {A_MF_GAUSS2, 4, {0.125, -1, 0.125, 1}}, {A_MF_GBELL, 3, {0.01, 8, 0}}, {A_MF_SIG, 2, {40, 0}},
+    {A_MF_DSIG, 4, {40, -1, 40, 1}}, {A_MF_PSIG, 4, {40, -1, -40, 1}}, {A_MF_TRAP, 4, {-1, -0.5, 0.5, 1}}, {A_MF_TRI, 3, {-1, 0, 1}},
+    {A_MF_LINS, 2, {-1, 1}}, {A_MF_LINZ, 2, {-1, 1}}, {A_MF_S, 2, {-1, 1}}, {A_MF_Z, 2, {-1, 1}}, {A_MF_PI, 4, {-2, -1, 1, 2}},
+};
+#define NKINDS ((int)(sizeof(kinds) / sizeof(kinds[0])))
+static int build_table(a_real *t, setdef const *first)
+{
+    int n = 0;
+    t[n++] = (a_real)first->kind;
+    for (int i = 0; i < first->np; ++i) { t[n++] = first->p[i]; }
+    t[n++] = A_MF_TRI; t[n++] = 0; t[n++] = 2; t[n++] = 4;
+    t[n++] = A_MF_TRI; t[n++] = 2; t[n++] = 4; t[n++] = 6;
+    return n;
+}
+/* membership of entry i of such a table, through the public dispatcher; "inactive" (<= epsilon) reported as 0 */
+static double table_mu(setdef const *first, int i, double x)
+{
+    static a_real const t1[] = {0, 2, 4}, t2[] = {2, 4, 6};
+    double y = i == 0 ? (double)a_mf((unsigned int)first->kind, (a_real)x, first->p) : (double)a_mf(A_MF_TRI, (a_real)x, i == 1 ? t1 : t2);
+    return y > (double)A_REAL_EPSILON ? y : 0;
+}
+static void table_scenario(int oi, int mode, int ke, int kec)
+{
+    static int const sets[] = {0, 3, 3, 0, 1, 1, 4, 4};
+    int const n = 8;
+    a_pid_fuzzy ctx;
+    a_real te[16], tec[16];
+    unsigned char raw[64 + A_PID_FUZZY_BFUZZ(3) + 64];
+    memset(raw, 0xC3, sizeof(raw));
+    memset(&ctx, 0, sizeof(ctx));
+    build_table(te, &kinds[ke]);
+    build_table(tec, &kinds[kec]);
+    ctx.pid.summax = 6; ctx.pid.summin = -6; ctx.pid.outmax = 10; ctx.pid.outmin = -10;
+    a_pid_fuzzy_set_opr(&ctx, oprs[oi]);
+    a_pid_fuzzy_set_rule(&ctx, 3, te, tec, mkp3, mki3, mkd3);
+    a_pid_fuzzy_set_kpid(&ctx, 2, 1, 1);
+    a_pid_fuzzy_set_bfuzz(&ctx, raw + 64, 3);
+    a_pid_fuzzy_zero(&ctx);
+    FILE *f = out();
+    fprintf(f, "{\"f\":\"fpidk\",\"opr\":%d,\"mode\":%d,\"ke\":%d,\"kec\":%d,\"base\":[2,1,1],\"steps\":[", oi, mode, kinds[ke].kind, kinds[kec].kind);
+    double prev = 0;
+    for (int i = 0; i < n; ++i)
+    {
+        double set = sets[i], e = set, ec = e - prev, o;
+        prev = e;
+        o = mode == 1 ? a_pid_fuzzy_pos(&ctx, (a_real)set, 0) : a_pid_fuzzy_inc(&ctx, (a_real)set, 0);
+        fprintf(f, i ? ",{\"mue\":[" : "{\"mue\":[");
+        for (int k = 0; k < 3; ++k) { if (k) { fputc(',', f); } put_dyadic(f, table_mu(&kinds[ke], k, e)); }
+        fputs("],\"muec\":[", f);
+        for (int k = 0; k < 3; ++k) { if (k) { fputc(',', f); } put_dyadic(f, table_mu(&kinds[kec], k, ec)); }
+        fputs("],\"kp\":", f); put_value(f, ctx.pid.kp);
+        fputs(",\"ki\":", f); put_value(f, ctx.pid.ki);
+        fputs(",\"kd\":", f); put_value(f, ctx.pid.kd);
+        fputs(",\"out\":", f); put_ordered(f, o);
+        fputc('}', f);
+    }
+    int canary = 1;
+    for (int i = 0; i < 64; ++i)
+    {
+        if (raw[i] != 0xC3 || raw[64 + A_PID_FUZZY_BFUZZ(3) + i] != 0xC3) { canary = 0; }
+    }
+    fprintf(f, "],\"canary\":%d,\"lim_codes\":[", canary);
+    put_ordered(f, -10.0);
+    fputc(',', f);
+    put_ordered(f, 10.0);
+    fputs("]}\n", f);
+    ++n_ctl;
+}
+
 static void neuro_scenario(int mode, int wset, int const *sets, int const *fdbs, int n)
 {
     a_pid_neuro ctx, fresh;
@@ -270,6 +345,17 @@ int main(int argc, char **argv)
         sweep("sig", A_MF_SIG, s2, 2, -8, 8, 1, 1);     /* decreasing */
         sweep("dsig", A_MF_DSIG, d1, 4, -8, 8, 0, 0);
         sweep("psig", A_MF_PSIG, p1, 4, -8, 8, 0, 0);
+        /* far tails (the exponentials inside overflow / underflow there): still in [0,1], monotone, finite */
+        {
+            double ggf[] = {1, 0, 2, 300};
+            sweep("gauss", A_MF_GAUSS, g1, 2, -3998, 4002, 21, 21);
+            sweep("gauss2", A_MF_GAUSS2, ggf, 4, -6000, 6000, 21, 22);
+            sweep("gbell", A_MF_GBELL, b1, 3, -4000, 4000, 21, 21);
+            sweep("sig", A_MF_SIG, s1, 2, -3999, 4001, 41, 41);
+            sweep("sig", A_MF_SIG, s2, 2, -4000, 4000, 1, 1);
+            sweep("dsig", A_MF_DSIG, d1, 4, -4000, 4000, 0, 0);
+            sweep("psig", A_MF_PSIG, p1, 4, -4000, 4000, 0, 0);
+        }
     }
     /* controller scenarios: short histories in halves, all operators and modes */
     uint64_t s = 0x9E3779B97F4A7C15ull ^ (strtoull(argv[4], 0, 10) * 1000003ull);
@@ -292,6 +378,11 @@ int main(int argc, char **argv)
                 fuzzy_scenario(oi, mode, st, fb, 6);
             }
         }
+    }
+    /* membership tables: every kind first in the e-table (with the next kind first in the ec-table), all operators */
+    for (int oi = 0; oi < 7; ++oi)
+    {
+        for (int k = 0; k < NKINDS; ++k) { table_scenario(oi, 1 + (k + oi) % 2, k, (k + 1) % NKINDS); }
     }
     for (int mode = 0; mode < 2; ++mode)
     {
